@@ -19,3 +19,5 @@ import Signac.Cache
 import Signac.Properties.C08
 import Signac.Properties.C09
 import Signac.Properties.C16
+import Signac.Properties.C05
+import Signac.Properties.C12
